@@ -174,7 +174,7 @@ pub fn run(script: &[Line], prefix: &[usize], horizon: usize) -> Exec {
                 break;
             }
             let events_before = s.events.len();
-            let (g2, to) = CV.wait_timeout(g, std::time::Duration::from_millis(50)).unwrap_or_else(|e| e.into_inner());
+            let (g2, to) = CV.wait_timeout(g, std::time::Duration::from_millis(25)).unwrap_or_else(|e| e.into_inner());
             g = g2;
             if !to.timed_out() {
                 idle_polls = 0;
@@ -199,7 +199,7 @@ pub fn run(script: &[Line], prefix: &[usize], horizon: usize) -> Exec {
                         Some('S') | Some('D') => asleep_polls += 1,
                         _ => asleep_polls = 0,
                     }
-                    if asleep_polls >= 6 || idle_polls as u64 >= OUTSIDE_AFTER_SECS * 20 {
+                    if asleep_polls >= 4 || idle_polls as u64 >= OUTSIDE_AFTER_SECS * 40 {
                         s.threads[i].outside = true;
                         s.current = None;
                         outside_marks += 1;
@@ -479,6 +479,11 @@ pub fn explore(script: &[Line], bound: usize, horizon: usize, oracle: &dyn Fn(&E
                             res.violations.push((e.choices(), v));
                         }
                     }
+                }
+                // eight failing schedules of one script characterise the defect; exploring (and replaying twice) every
+                // further one only costs time - most of all when each failing execution has to wait for a blocked thread
+                if res.n_violations >= 8 {
+                    return res;
                 }
                 if res.executions >= cap_execs {
                     res.machinery.push(format!("CAP: execution cap {} hit", cap_execs));
